@@ -25,6 +25,7 @@ var repoSets = map[string]genSet{
 	"cases":      {Name: "cases", Files: []string{tls + "cases.tl"}, Args: []string{"--tl2WhiteList=*", "--generateByteVersions=cases_bytes.,cases.", "--generateRandomCode"}},
 	"goldmaster": {Name: "goldmaster", Files: []string{tls + "goldmaster.tl", tls + "goldmaster2.tl", tls + "goldmaster3.tl"}, Args: []string{"--tl2WhiteList=*", "--generateByteVersions=ch_proxy.,ab.,memcache.", "--generateRandomCode"}},
 	"schema":     {Name: "schema", Files: []string{tls + "schema.tl"}, Args: []string{"--tl2WhiteList=*", "--generateByteVersions=*", "--generateRandomCode", "--split-internal"}},
+	"sink":       {Name: "sink", Files: []string{"/verif/schemas/sink.tl"}, Args: []string{"--tl2WhiteList=*", "--generateByteVersions=*", "--generateRandomCode"}},
 	"casesnotl2": {Name: "casesnotl2", Files: []string{tls + "cases.tl"}, Args: []string{"--generateByteVersions=cases_bytes.", "--generateRandomCode"}},
 }
 
